@@ -58,7 +58,9 @@ def run(res, tier, seed, broken):
         return []
 
     C.decide(res, broken, tie, bad, hunt,
-             lambda c: "a higher-order / mixed-mode derivative differs from the true derivative (tower spec)")
+             lambda c: "a higher-order / mixed-mode derivative differs from the true derivative (tower spec)%s"
+             % ((": %s [%s] %s" % (c.get("primitive"), c.get("configuration"), c.get("what"))) if c.get("primitive") else ""),
+             site_of=lambda c: c.get("site", {}))
 
 
 replay = __import__("harness.props.c08", fromlist=["replay"]).replay
